@@ -362,6 +362,7 @@ def run_case(ctx, i, rng):
     recA, recB = Recorder(A), Recorder(B)
     G = ops.RepoMaterial(rng, infoA)
     ctxX, ctxD = {}, {}     # open enumeration contexts by kind
+    sess_ns = {}            # namespace each open session was opened in
     nsteps = rng.randint(8, 30)
     if dump(A) != dump(B):
         ctx.harness_errors.append({'case': i, 'traceback':
@@ -376,9 +377,15 @@ def run_case(ctx, i, rng):
             break
         op = None
         pullable = [k for k in ctxX if ctxX[k] and ctxD.get(k)]
-        if pullable and rng.random() < 0.3:
+        if pullable and rng.random() < 0.6:
             kind = rng.choice(pullable)
             op = rng.choice([kind, kind, 'CloseEnumeration'])
+        elif not pullable and rng.random() < 0.15:
+            # open an enumeration session for the pulls of the next steps
+            op = rng.choice(['OpenEnumerateInstances',
+                             'OpenEnumerateInstancePaths',
+                             'OpenAssociatorInstances',
+                             'OpenReferenceInstancePaths'])
         elif rng.random() < 0.25:
             op = 'InvokeMethod'
         while True:
@@ -389,6 +396,10 @@ def run_case(ctx, i, rng):
             if opn != 'ExportIndication':
                 break
             op = None
+        if opn.startswith('Open') and rng.random() < 0.5:
+            # small first batches keep the enumeration session open, so that
+            # several pulls and a close follow it
+            kw['MaxObjectCount'] = rng.choice([0, 0, 1])
         # each side gets its own copy of the caller's objects, so that what an
         # operation does to them can be compared as well
         argsX, argsD = clone(args), clone(args)
@@ -401,7 +412,17 @@ def run_case(ctx, i, rng):
             if kind and ctxX.get(kind) and ctxD.get(kind):
                 argsX = (ctxX[kind],) + tuple(argsX[1:])
                 argsD = (ctxD[kind],) + tuple(argsD[1:])
+                if opn != 'CloseEnumeration' and rng.random() < 0.6:
+                    # small batches: the session lives on for further pulls
+                    moc = rng.choice([0, 1, 1, 2])
+                    argsX = (argsX[0], moc) + tuple(argsX[2:])
+                    argsD = (argsD[0], moc) + tuple(argsD[2:])
+                    args = (args[0], moc) + tuple(args[2:])
                 real_ctx = True
+                ctx.count('real-context:' + opn)
+                if sess_ns.get(kind) and sess_ns[kind] != \
+                        X.default_namespace:
+                    ctx.count('real-context-in-non-default-namespace')
                 if opn == 'CloseEnumeration':
                     ctxX[kind] = ctxD[kind] = None
         ctx.evaluated()
@@ -461,6 +482,10 @@ def run_case(ctx, i, rng):
                                     a, b, detail)
                         break
         exp = expected_seen(opn, argsX, kw, X.default_namespace)
+        if exp is not None and real_ctx and sess_ns.get(kind):
+            # a pull or close goes to the namespace in which the session was
+            # opened, whatever the context object handed back says
+            exp = (exp[0], exp[1], sess_ns[kind], exp[3])
         if opn.startswith('Iter') and seenA and rx[0] != 'exc':
             # an Iter... call reaches the server first as its Open... or as
             # its traditional operation; that first request must carry what
@@ -546,6 +571,12 @@ def run_case(ctx, i, rng):
                 if not opn.startswith('Pull') or real_ctx:
                     ctxX[kind] = None if vx.eos else vx.context
                     ctxD[kind] = None if vd.eos else vd.context
+                if opn.startswith('Open') and seenA:
+                    # namespace of the session: what the server saw when it
+                    # was opened (checked against the caller's arguments
+                    # above)
+                    sess_ns[kind] = seenA[0][2] if isinstance(
+                        seenA[0][2], str) else None
             try:
                 a, b = unordered(result_fp(vx)), unordered(result_fp(vd))
             except Exception as exc:  # pylint: disable=broad-except
